@@ -57,6 +57,12 @@ def exhaustive(tier):
                           ({"t": "dict", "entries": [{"key": "r", "opt": False, "spec": spec}], "relaxed": False}, {"r": x}),
                           ({"t": "any", "alts": [spec, {"t": "none"}]}, x)):
                 yield {"spec": sp, "value": v, "full": None, "kind": "float-extremes", "rng": [0.5], "share": False}
+    # lists with a declared length, substituted with an open-ended value that holds too many / just enough / too few members
+    for lf in (["eq", 2], ["max", 2], ["range", 1, 2], ["min", 2], ["eq", 0]):
+        for base in ({"t": "list", "form": "typed", "elem": {"t": "int"}, "len": lf}, {"t": "list", "form": "untyped", "len": lf}):
+            for vals in ([1, 2, 3, ...], [..., 1, 2, 3], [1, ...], [..., 1], [1, 2, ...], [...], [1, 2, 3, 4, 5, ...]):
+                for sp, v in ((base, vals), ({"t": "dict", "entries": [{"key": "items", "opt": False, "spec": base}], "relaxed": False}, {"items": vals})):
+                    yield {"spec": sp, "value": v, "full": None, "kind": "open-ended-vs-len", "rng": [0.5, 0.0, 1.0], "share": False}
     for spec in targets:
         for x in odd:
             for v in (x, {"a": x}, [x], [1, 2, x], {"a": {"b": x}}, [[x]], {"a": [x, 1]}, [1, x, 1, 2]):
@@ -133,6 +139,23 @@ def _empty_alphabet(spec):
                for s, _ in specs.walk(spec))
 
 
+def _own_substitutors(S, case, ctx):
+    """the exception contract holds for substitutors one constructs oneself, also with a plain (strict) Validator"""
+    from d42.substitution import Substitutor, SubstitutorValidator
+    from d42.substitution.errors import SubstitutionError
+    from d42.validation import Validator
+    for label, make in (("Substitutor(validator=Validator())", lambda: Substitutor(validator=Validator())),
+                        ("Substitutor(validator=SubstitutorValidator())", lambda: Substitutor(validator=SubstitutorValidator()))):
+        try:
+            S.__accept__(make(), value=substgen.realize(case))
+        except SubstitutionError:
+            pass
+        except Exception as e:  # noqa
+            raise Violation(f"wrong-exception:{type(e).__name__}",
+                            f"S.__accept__({label}, value=...) with S = {_r(S)} raised {e!r} (not SubstitutionError)")
+    ctx.label("own-substitutors-checked")
+
+
 def check(case, ctx):
     from d42 import fake, substitute, validate
     from d42.declaration import DeclarationError, Schema
@@ -155,6 +178,7 @@ def check(case, ctx):
         R = substitute(S, v)
     except SubstitutionError:
         ctx.label("refused")
+        _own_substitutors(S, case, ctx)
         if lenient_ok:
             ctx.label("refused-after-lenient-validation-passed")
             ctx.mark_nontrivial({"spec": spec, "value": case["value"]}, sample_class=("refused", case["kind"]))
@@ -164,6 +188,7 @@ def check(case, ctx):
                         f"substitute({_r(S)}, {_r(v)}) raised {e!r} (not SubstitutionError)")
     if not isinstance(R, Schema):
         raise Violation("not-a-schema", f"substitute({S!r}, {v!r}) returned {R!r}")
+    _own_substitutors(S, case, ctx)
     if canon.canon(S) != before:
         raise Violation("receiver-changed", f"substitute changed {S!r}")
     ctx.label("substituted")
